@@ -1,3 +1,3 @@
 import CobaVerif.Driver.Loop
--- stub: replaced when the C01 model exists
-def main : IO Unit := Coba.J.runLoop (fun _ => .error "C01 driver not implemented")
+import CobaVerif.Driver.C01
+def main : IO Unit := Coba.J.runLoop Coba.C01.Driver.handle
